@@ -29,6 +29,10 @@ def nested_defs():
         "E2x": E(False, [V(0, "array", "unit", []), V(1, "array", "tuple", [F(0, False, -1, "u8")]),
                          V(2, "map", "named", [F(0, True, -1, "u8"), F(1, False, -1, "str")])]),
         "E2u": E(False, [V(0, "array", "named", [F(0, True, -1, "u8"), F(1, True, -1, "str")]), V(1, "array", "tuple", [F(0, False, -1, "u8")])]),
+        "E2m": E(False, [V(0, "map", "unit", []), V(1, "array", "tuple", [F(0, False, -1, "u8")])]),
+        "E2mu": E(False, [V(0, "map", "named", [F(0, True, -1, "u8"), F(1, True, -1, "str")]), V(1, "array", "tuple", [F(0, False, -1, "u8")])]),
+        "E2a": {"kind": "enum", "enc": "map", "tag": -1, "index_only": False, "variants": [V(0, "array", "unit", []), V(1, "map", "tuple", [F(0, False, -1, "u8")])]},
+        "E2au": {"kind": "enum", "enc": "map", "tag": -1, "index_only": False, "variants": [V(0, "array", "tuple", [F(0, True, -1, "u8")]), V(1, "map", "tuple", [F(0, False, -1, "u8")])]},
         "Io": E(True, [V(0, "array", "unit", []), V(1, "array", "unit", [])]),
         "Iox": E(True, [V(0, "array", "unit", []), V(1, "array", "unit", []), V(7, "array", "unit", [])]),
     }
@@ -53,6 +57,8 @@ def prepare(ver, wd):
     for line in open(raw):
         c = json.loads(line)
         keys.setdefault(schema2rs.canon(c["in"]["schema"]), c["in"]["schema"])
+        if "wschema" in c["in"]:
+            keys.setdefault(schema2rs.canon(c["in"]["wschema"]), c["in"]["wschema"])
     order = sorted(keys)
     ids = {k: i for i, k in enumerate(order)}
     schemas = [keys[k] for k in order]
@@ -61,6 +67,8 @@ def prepare(ver, wd):
         for line in open(raw):
             c = json.loads(line)
             c["sid"] = ids[schema2rs.canon(c["in"]["schema"])]
+            if "wschema" in c["in"]:
+                c["wsid"] = ids[schema2rs.canon(c["in"]["wschema"])]
             out.write(json.dumps(c) + "\n")
     os.remove(raw)
     src = schema2rs.generate(schemas, "minicbor-verif", nested_defs())
@@ -73,7 +81,7 @@ def prepare(ver, wd):
     return _cache[key]
 
 
-WHY_OF = {"C08": {"bytes"}, "C07": {"len"}, "C09": {"dec:same", "dec:wider", "dec:indef", "panic"}, "C10": {"dec:fwd", "dec:bwd"}}
+WHY_OF = {"C08": {"bytes"}, "C07": {"len"}, "C09": {"dec:same", "dec:wider", "dec:indef", "dec:badtag", "panic"}, "C10": {"dec:fwd", "dec:bwd", "dec:xfwd", "dec:xbwd"}}
 
 
 def replay(ver, wd, only):
